@@ -9,11 +9,14 @@ ORDER = """ensures
 UNIT = dict(
     id="c08_advance_order",
     prelude=[],
-    expect=[("src/solve/vanilla.rs", r"trait PlayerRecurse \{\s*fn update_cum_strat\(&mut self, prob: f64\);\s*fn advance\(&mut self, it: u64, params: &RegretParams\) -> f64;\s*\}"),
+    expect=[("src/solve/vanilla.rs", r"trait MutexPlayerRecurse \{\s*fn update_cum_strat\(&self, prob: f64\);\s*fn advance\(&mut self, it: u64, params: &RegretParams\) -> f64;\s*\}"),
+            ("src/solve/data.rs", r"AtomicIter\(self\.iter_mut\(\)\)"), ("src/solve/data.rs", r"self\.0\.next\(\)\.map\(AtomicF64::get_mut\)"),
+            ("src/solve/vanilla.rs", r"trait PlayerRecurse \{\s*fn update_cum_strat\(&mut self, prob: f64\);\s*fn advance\(&mut self, it: u64, params: &RegretParams\) -> f64;\s*\}"),
             ("src/solve/external.rs", r"fn advance<const FIRST: bool>\(&mut self, it: u64, params: &RegretParams\) -> f64;")],
     assumptions=[
         "R5: RegretParams::{regret_match, discount_cum_regret, discount_average_strat, cum_regret} are bound to uninterpreted pure functions of their arguments with frames (prelude/params_stub.rs); discharged per helper by Kani harnesses at the bounded level",
         "the generic `R: IntoFloatsMut` parameter of the helpers is instantiated at [f64] (the instance used by RegretInfoset / CachedInfoset)",
+        "MutexRegretInfoset is extracted with TYPE-SUBST Box<[AtomicF64]> -> Box<[f64]> (its IntoFloatsMut impl exposes the cells as &mut f64 through AtomicF64::get_mut, checked by `expect`) and a Mutex stub whose get_mut returns the protected value (poisoning not modelled)",
     ],
     items=[
         dict(file="src/solve/data.rs", path="struct RegretParams", attrs="#[derive(Clone, Copy)]"),
@@ -33,6 +36,30 @@ pub trait ActiveInfo {
         dict(file="src/solve/vanilla.rs", path="impl PlayerRecurse for RegretInfoset", members=[
             dict(path="fn advance", ret="r", obligation="C08.V.advance.order",
                  contract=ORDER % dict(f="", it_avg="it")),
+        ]),
+        dict(raw="""// R5: std::sync::Mutex as far as `advance` uses it: get_mut() on an exclusively borrowed mutex
+// returns the protected value (lock poisoning -- the Err case -- is not modelled: assumed Ok)
+#[derive(Debug)]
+pub struct PoisonError { }
+pub struct Mutex<T> { pub inner: T }
+impl<T> Mutex<T> {
+    #[verifier::external_body]
+    pub fn get_mut(&mut self) -> (r: Result<&mut T, PoisonError>)
+        ensures r is Ok, *(r->Ok_0) == old(self).inner, final(self).inner == *final(r->Ok_0),
+    { unimplemented!() }
+}
+pub trait MutexPlayerRecurse {
+    fn advance(&mut self, it: u64, params: &RegretParams) -> f64;
+}"""),
+        dict(file="src/solve/vanilla.rs", path="struct MutexRegretInfoset",
+             subst=[(r"Box<\[AtomicF64\]>", "Box<[f64]>", "TYPE-SUBST AtomicF64 cells seen through get_mut (the IntoFloatsMut impl for [AtomicF64] maps AtomicF64::get_mut) as f64")]),
+        dict(file="src/solve/vanilla.rs", path="impl MutexPlayerRecurse for MutexRegretInfoset", members=[
+            dict(path="fn advance", ret="r", obligation="C08.V.advance.order",
+                 contract="""ensures
+    final(self).strat@ == rm_spec(*params, old(self).cum_regret@), // @ob C08.V.advance.match_before_discount
+    final(self).cum_regret@ == dcr_spec(*params, it, old(self).cum_regret@), // @ob C08.V.advance.discount_regrets
+    final(self).cum_strat.inner@ == das_spec(*params, it, old(self).cum_strat.inner@), // @ob C08.V.advance.discount_average
+    r == cr_spec(*params, it, final(self).cum_regret@), // @ob C02.V.advance.reports_bound"""),
         ]),
         dict(file="src/solve/external.rs", path="struct CachedInfoset", pub_fields=True),
         dict(file="src/solve/external.rs", path="impl ActiveInfo for CachedInfoset", members=[
